@@ -205,7 +205,8 @@ template <int R> inline std::vector<ISel> ix_parse(const std::vector<std::string
   for (int k = 0; k < R; ++k) if (!parse_isel(w[k + 1], R, t[k])) throw BadOp();
   return t;
 }
-template <int R> inline std::string ix_go(Array<R,int>& a, const std::vector<ISel>& t) { return IxDisp<IX_FIRST_MASK, R, 0, 0, false>::go(a, t); }
+// (Mask is a template parameter here too: translation units with different IX_FIRST_MASK must not share one ix_go<R>)
+template <int R, int Mask = IX_FIRST_MASK> inline std::string ix_go(Array<R,int>& a, const std::vector<ISel>& t) { return IxDisp<Mask, R, 0, 0, false>::go(a, t); }
 // rank 3 is split over two translation units by the first letter
 std::string ix_op3_vec_first(Array<3,int>& a, const std::vector<ISel>& t);
 #endif
